@@ -51,6 +51,7 @@ def obligations(tier, seed):
         for second in (0, 1): obs.append(dict(name='setup/%s/in%d' % (k, second), kind='setup', t=k, idx=second))
         if k in ('legacy-p2pkh', 'legacy-bare', 'p2wpkh', 'p2tr-key', 'p2tr-script-m0', 'witness-program-empty-witness'):
             for second in (0, 1): obs.append(dict(name='setup/%s/in%d/other-input-has-witness' % (k, second), kind='setup', t=k, idx=second, other_wit=1))
+    for k in ('legacy-bare', 'legacy-p2pkh', 'p2wsh', 'p2tr-key'): obs.append(dict(name='setup/%s/in0/flags-symbolic' % k, kind='setup', t=k, idx=0, symflags=1))          # seed C09-4: setup_environment 'normalised' the flags
     for cs in (CTRL_SIZES if tier == 'quick' else sorted(set(list(range(0, 100)) + [33 + 32 * 127, 33 + 32 * 128 - 1, 33 + 32 * 128 + 1] + CTRL_SIZES))): obs.append(dict(name='setup/control-size/%d' % cs, kind='setup', t='p2tr-script-ctrl', idx=0, csize=cs))
     for nin in (1, 2):
         for sel in (-1, 0, 1, 2): obs.append(dict(name='select/nin%d/select%d' % (nin, sel), kind='select', nin=nin, sel=sel))
@@ -67,9 +68,10 @@ def build(ob, V=None):
     W = None; S = []; exp = None
     if sym: assume += [z3.And(z3.UGE(c, 0x51), z3.ULE(c, 0xb9)) for c in scr]      # the revealed script decodes into defined non-push opcodes (decoding itself is C01's domain)
     OK, REFUSED = 1, 0
+    FLAGS = var('flags', 32) if ob.get('symflags') else 0x1fffdf          # the flag word handed to setup_environment must be the one the session runs under
     def base(sigver, script, successor, stack, pre, **kw):
         d = dict(ok=1, sigver=sigver, script=script, successor=successor, stack=stack, amount=hlib.le(val), preamble=pre, annex_present=0, annex_hash='*', leaf='*', weight='*', tce=0, tce_m=0,
-                 env_ok=1, env_sigver=sigver, env_script=script, env_successor=successor, env_tce=0)
+                 env_ok=1, env_sigver=sigver, env_script=script, env_successor=successor, env_tce=0, env_flags=FLAGS)
         d.update(kw); return d
     if t == 'legacy-p2pkh':
         P = [0x76, 0xa9, 0x14] + h20 + [0x88, 0xac]; S = [9] + sig + [33] + pub
@@ -141,7 +143,8 @@ def build(ob, V=None):
     if idx == 0: ins = [mine, other]
     spend_full, _ = ser_tx(bs('ver', 4), ins, [(bs('sv', 8), [0x51])], bs('lk', 4))
     inputs = dict(tx=spend_full, txin=fund_full)
-    return dict(tx=spend_full, txin=fund_full, idx=idx, vout=1, exp=exp, inputs=inputs, assume=assume)
+    if ob.get('symflags'): inputs['flags'] = FLAGS
+    return dict(tx=spend_full, txin=fund_full, idx=idx, vout=1, exp=exp, inputs=inputs, assume=assume, flags=FLAGS)
 
 def parse_out(E, f, raw):
     rp = sesslib.Rep(lambda off, n: (hlib.le(raw[off:off + n]) if n > 1 else raw[off]), (lambda t: hlib.uniq(E, f, t)) if f is not None else None)
@@ -161,12 +164,13 @@ def parse_out(E, f, raw):
     d['tce'] = rp.u32(); d['tce_m'] = rp.u32()
     d['leaf'] = lf if (not is_sym(d['tce']) and d['tce']) else '*'; d['weight'] = wt if (not is_sym(d['tce']) and d['tce']) else '*'
     d['env_ok'] = rp.u32(); d['env_sigver'] = rp.u32(); env_done = rp.u32(); env_p2sh = rp.u32(); d['env_script'] = rp.bytes(); d['env_successor'] = rp.bytes(); d['env_tce'] = rp.u32()
+    rp.u32(); rp.u64(); rp.u32(); d['env_flags'] = rp.u32()
     return d
 
 def prep(ob, V=None):
     if ob['kind'] == 'select': return prep_select(ob, V)
     b = build(ob, V)
-    spec = [('in', b['tx']), ('u32', len(b['tx'])), ('in', b['txin']), ('u32', len(b['txin'])), ('u32', b['idx']), ('u32', b['vout']), ('u32', 0x1fffdf), ('out', 6000)]
+    spec = [('in', b['tx']), ('u32', len(b['tx'])), ('in', b['txin']), ('u32', len(b['txin'])), ('u32', b['idx']), ('u32', b['vout']), ('u32', b['flags']), ('out', 6000)]
     def io(E, f, ret, outs):
         if ret is None: return ('crash', f.result[1] if f.result else 'none', f.result[2] if f.result and len(f.result) > 2 else '')
         n = hlib.uniq(E, f, ret) if f is not None else ret
@@ -214,7 +218,7 @@ def run(E, ob):
 def replay(lib, ob, cex):
     if ob['kind'] == 'select': return None, 'selection replay: see note'
     tx = cex['tx']; txin = cex['txin']
-    spec = [('in', tx), ('u32', len(tx)), ('in', txin), ('u32', len(txin)), ('u32', ob['idx']), ('u32', 1), ('u32', 0x1fffdf), ('out', 6000)]
+    spec = [('in', tx), ('u32', len(tx)), ('in', txin), ('u32', len(txin)), ('u32', ob['idx']), ('u32', 1), ('u32', cex.get('flags', 0x1fffdf)), ('out', 6000)]
     ret, outs = hlib.spec_native(lib, 'w_configure', spec)
     nat = parse_out(None, None, outs[0](ret))
     return None, 'native set-up for --tx=%s --txin=%s : %s' % (bytes(tx).hex(), bytes(txin).hex(), sesslib.short(nat, 300))
